@@ -613,6 +613,132 @@ def m_eq_any(eng, st, fr, t, name, rname, args):
     return K(v if not name.endswith("::ne") else not v)
 
 
+# ---- slices of non-byte elements (e.g. the children of a tree branch) -------------------------------------------------
+LIST_ITER = "list-iter"
+
+
+def _list_of(eng, st, v):
+    v = eng.resolve(st, v)
+    n = 0
+    while isinstance(v, RefV) and n < 6:
+        v = eng.resolve(st, load(Loc(v.cell, v.path)))
+        n += 1
+    return v if isinstance(v, fdai.ListV) else None
+
+
+def _liter_of(eng, st, v):
+    v = eng.resolve(st, v)
+    n = 0
+    while isinstance(v, RefV) and n < 6:
+        v = eng.resolve(st, load(Loc(v.cell, v.path)))
+        n += 1
+    return v if isinstance(v, AggV) and v.kind == LIST_ITER else None
+
+
+def _or(primary, fallback):
+    def m(eng, st, fr, t, name, rname, args):
+        r = primary(eng, st, fr, t, name, rname, args)
+        if r is NotImplemented and fallback is not None:
+            return fallback(eng, st, fr, t, name, rname, args)
+        return r
+    return m
+
+
+def ml_iter(eng, st, fr, t, name, rname, args):
+    l = _list_of(eng, st, args[0])
+    if l is None:
+        it = _liter_of(eng, st, args[0])
+        return it if it is not None and name.endswith("into_iter") else NotImplemented
+    return AggV(LIST_ITER, {0: K(0), 1: l})
+
+
+def ml_len(eng, st, fr, t, name, rname, args):
+    l = _list_of(eng, st, args[0])
+    return NotImplemented if l is None else K(len(l.cells))
+
+
+def ml_is_empty(eng, st, fr, t, name, rname, args):
+    l = _list_of(eng, st, args[0])
+    return NotImplemented if l is None else K(len(l.cells) == 0)
+
+
+def ml_next(eng, st, fr, t, name, rname, args):
+    it = _liter_of(eng, st, args[0])
+    if it is None:
+        return NotImplemented
+    pos = it.fields[0].v
+    cells = it.fields[1].cells
+    if pos < len(cells):
+        it.fields[0] = K(pos + 1)
+        return mk_option(RefV(cells[pos]))
+    return mk_option(None)
+
+
+def _ml_search(kind):
+    def m(eng, st, fr, t, name, rname, args):
+        it = _liter_of(eng, st, args[0])
+        if it is None:
+            return NotImplemented
+        pos = it.fields[0].v
+        cells = it.fields[1].cells[pos:]
+
+        def advance(s, k):
+            i2 = _liter_of(eng, s, eng.operand(s, s.frames[-1], t["args"][0]))
+            if i2 is not None:
+                i2.fields[0] = K(pos + k)
+
+        if kind == "find":
+            mk = lambda c: RefV(Cell(RefV(c), "itemref"))
+            dec = lambda i, v, s: (advance(s, i + 1), ("stop", mk_option(RefV(_same_cell(s, eng, t, pos + i)))))[1] if v else ("go",)
+            fin = lambda s: (advance(s, len(cells)), mk_option(None))[1]
+        elif kind == "position":
+            mk = lambda c: RefV(c)
+            dec = lambda i, v, s: (advance(s, i + 1), ("stop", mk_option(K(i))))[1] if v else ("go",)
+            fin = lambda s: (advance(s, len(cells)), mk_option(None))[1]
+        elif kind == "any":
+            mk = lambda c: RefV(c)
+            dec = lambda i, v, s: (advance(s, i + 1), ("stop", K(True)))[1] if v else ("go",)
+            fin = lambda s: (advance(s, len(cells)), K(False))[1]
+        else:  # all
+            mk = lambda c: RefV(c)
+            dec = lambda i, v, s: ("go",) if v else (advance(s, i + 1), ("stop", K(False)))[1]
+            fin = lambda s: (advance(s, len(cells)), K(True))[1]
+        return _seq(eng, st, fr, t, cells, _arg_reader(t, 1, eng), mk, dec, fin)
+    return m
+
+
+def _same_cell(s, eng, t, idx):
+    """the idx-th cell of the list as it exists in (possibly forked) state s"""
+    it = _liter_of(eng, s, eng.operand(s, s.frames[-1], t["args"][0]))
+    return it.fields[1].cells[idx]
+
+
+LIST_MODELS = {
+    "core::slice::iter": ml_iter,
+    "core::iter::IntoIterator::into_iter": ml_iter,
+    "core::slice::len": ml_len,
+    "core::slice::is_empty": ml_is_empty,
+    "core::iter::Iterator::next": ml_next,
+    "<core::slice::Iter<'a, T> as core::iter::Iterator>::next": ml_next,
+    "core::iter::Iterator::find": _ml_search("find"),
+    "<core::slice::Iter<'a, T> as core::iter::Iterator>::find": _ml_search("find"),
+    "core::iter::Iterator::position": _ml_search("position"),
+    "<core::slice::Iter<'a, T> as core::iter::Iterator>::position": _ml_search("position"),
+    "core::iter::Iterator::any": _ml_search("any"),
+    "<core::slice::Iter<'a, T> as core::iter::Iterator>::any": _ml_search("any"),
+    "core::iter::Iterator::all": _ml_search("all"),
+    "<core::slice::Iter<'a, T> as core::iter::Iterator>::all": _ml_search("all"),
+}
+
+
+def with_lists(models):
+    """models extended so that slice/iterator calls work on ListV as well as on byte strings"""
+    out = dict(models)
+    for k, f in LIST_MODELS.items():
+        out[k] = _or(f, models.get(k))
+    return out
+
+
 FOLD_MODELS = dict(BYTE_MODELS)
 FOLD_MODELS.update({
     "core::slice::iter": m_slice_iter,
